@@ -1562,6 +1562,7 @@ def c12_one(acc: Acc, src: str, name: str, max_paths: int, seed: int, max_rebuil
             chosen += others[:max(0, max_paths - 2)]
         snap0, _keep = snapshot(teal)
         sig: Dict[Tuple[int, ...], Any] = {}
+        kept: Dict[Tuple[int, ...], Any] = {}
         seen: Set[str] = set()
 
         def report(cls: str, msg: str, path: List[int]) -> None:
@@ -1595,6 +1596,18 @@ def c12_one(acc: Acc, src: str, name: str, max_paths: int, seed: int, max_rebuil
             for cls, msg in vs:
                 report(cls, msg, path)
             sig[tuple(path)] = function_signature(fn)
+            kept[tuple(path)] = fn
+        # the function objects built first, looked at again after all the others exist: what they answer must not have changed
+        # (per-function tables must not be shared between Function objects)
+        for pth, fn0 in kept.items():
+            acc.evaluations += 1
+            try:
+                same = function_signature(fn0) == sig[pth]
+            except Exception as e:  # pylint: disable=broad-except
+                same = False
+            if not same:
+                report("function-changed-by-later-construction", f"path {list(pth)}: the graph or the contexts this function object reports "
+                       f"differ once the functions for {[list(q) for q in kept if q != pth][:4]} have been built from the same contract", list(pth))
         # the same functions built again in the opposite order, after the others exist
         for path in reversed(chosen[:max_rebuild]):
             if tuple(path) not in sig:
